@@ -10,7 +10,8 @@
    All of them quantify over every size n, batch shape, number of start vectors, budget max_iter, tol and
    closure: nothing is bounded. *)
 From mathcomp Require Import all_ssreflect all_algebra.
-Require Import C09.Model C09.ProofsGen C09.ProofsAlg C09.ProofsPost C09.ProofsEx.
+Require Import C09.Model C09.ProofsGen C09.ProofsAlg C09.ProofsPost C09.ProofsPrefix C09.ProofsProbe C09.ProofsEx.
+Require Import C09.gen.Consts.
 Set Implicit Arguments.
 Unset Strict Implicit.
 Unset Printing Implicit Defensive.
@@ -203,11 +204,14 @@ Theorem C09_root_of_lanczos (F : rcfType) (g : lz_args F) o nvec init :
           R *m R^T = Am + jm%:M /\ (Am + jm%:M) *m (Ri *m Ri^T) = 1%:M].
 Proof. exact: root_of_lanczos. Qed.
 
-(* 11b. Diagonalization.forward AS WRITTEN adds the jitter to every entry of T (torch.diag_embed of a keepdim
-        minimum is 1 x 1 and expand_as broadcasts it): Qd diag(evals) Qd^T = P A P + Q (jm 1 1^T) Q^T, the
-        orthogonal compression only for zero jitter.  [..._refuted]: the jittered matrix is NOT T + jm I
-        (known finding C09-diagonalization-jitter-all-entries; witness T = I_2, jitter 1). *)
-Theorem C09_diag_of_lanczos_partial (F : rcfType) (g : lz_args F) o nvec init :
+(* 11b. Diagonalization.forward, for BOTH forms of its jitter: [embed] = true is the code AS WRITTEN on the pinned tree
+        (torch.diag_embed of a keepdim minimum is 1 x 1 and expand_as broadcasts it: the jitter lands on EVERY entry of
+        T): Qd diag(evals) Qd^T = P A P + Q (jm 1 1^T) Q^T, the orthogonal compression only for zero jitter;
+        [embed] = false is the diagonal jitter (docstring, RootDecomposition, proposed fix): = P A P + jm P, and
+        = A + jm I on the full space.  [..._on_tree] instantiates it with the form that the tree under test uses
+        (probed on every run, gen/Consts.v); [..._refuted]: the as-written matrix is NOT T + jm I (known finding
+        C09-diagonalization-jitter-all-entries; witness T = I_2, jitter 1). *)
+Theorem C09_diag_of_lanczos (F : rcfType) (embed : bool) (g : lz_args F) o nvec init :
   lanczos_tridiag (ArR F) g = Ok o -> lz_start g = Ok (nvec, init) ->
   forall idx, (idx < size (o_Q o))%N ->
     let n := g_n g in let m := o_m o in
@@ -218,7 +222,7 @@ Theorem C09_diag_of_lanczos_partial (F : rcfType) (g : lz_args F) o nvec init :
     cv n init c != 0 ->
     (forall j, (j.+1 < m)%N -> mget (ArR F) T j j.+1 != 0) ->
     forall (jit : F) (evals : vec F) (evecs : mat F),
-    let Tj := add_jitter (ArR F) true jit m T in
+    let Tj := add_jitter (ArR F) embed jit m T in
     let V := mx_of m m evecs in
     V^T *m V = 1%:M -> mx_of m m Tj *m V = V *m diag_mx (rv m evals) ->
     (forall j : 'I_m, 0 <= vget (ArR F) evals j) ->
@@ -226,9 +230,37 @@ Theorem C09_diag_of_lanczos_partial (F : rcfType) (g : lz_args F) o nvec init :
     let jm := jit * minl (ArR F) (mkseq (fun i => mget (ArR F) T i i) m) in
     let Qd := mx_of n m (diag_post (ArR F) n m Q evals evecs).2 in
     let ev' := (diag_post (ArR F) n m Q evals evecs).1 in
-    Qd *m diag_mx (rv m ev') *m Qd^T = P *m Am *m P + Qm *m const_mx jm *m Qm^T
-    /\ (jit = 0 -> Qd *m diag_mx (rv m ev') *m Qd^T = P *m Am *m P).
-Proof. exact: diag_of_lanczos. Qed.
+    [/\ Qd *m diag_mx (rv m ev') *m Qd^T
+          = P *m Am *m P + (if embed then Qm *m const_mx jm *m Qm^T else jm *: P),
+        (jit = 0 -> Qd *m diag_mx (rv m ev') *m Qd^T = P *m Am *m P) &
+        (~~ embed -> m = n -> Qd *m diag_mx (rv m ev') *m Qd^T = Am + jm%:M)].
+Proof. exact: diag_of_lanczos_any_form. Qed.
+
+Theorem C09_diag_of_lanczos_on_tree (F : rcfType) (g : lz_args F) o nvec init :
+  lanczos_tridiag (ArR F) g = Ok o -> lz_start g = Ok (nvec, init) ->
+  forall idx, (idx < size (o_Q o))%N ->
+    let n := g_n g in let m := o_m o in
+    let c := col_of (prodn (g_batch g)) nvec idx in
+    let Q := nth [::] (o_Q o) idx in let T := nth [::] (o_T o) idx in
+    forall Am : 'M[F]_n,
+    (forall X, cv n (g_mm g X) c = Am *m cv n X c) -> Am^T = Am ->
+    cv n init c != 0 ->
+    (forall j, (j.+1 < m)%N -> mget (ArR F) T j j.+1 != 0) ->
+    forall (jit : F) (evals : vec F) (evecs : mat F),
+    let Tj := add_jitter (ArR F) diag_jitter_all_entries_lit jit m T in
+    let V := mx_of m m evecs in
+    V^T *m V = 1%:M -> mx_of m m Tj *m V = V *m diag_mx (rv m evals) ->
+    (forall j : 'I_m, 0 <= vget (ArR F) evals j) ->
+    let Qm := mx_of n m Q in let P := Qm *m Qm^T in
+    let jm := jit * minl (ArR F) (mkseq (fun i => mget (ArR F) T i i) m) in
+    let Qd := mx_of n m (diag_post (ArR F) n m Q evals evecs).2 in
+    let ev' := (diag_post (ArR F) n m Q evals evecs).1 in
+    Qd *m diag_mx (rv m ev') *m Qd^T
+      = P *m Am *m P + (if diag_jitter_all_entries_lit then Qm *m const_mx jm *m Qm^T else jm *: P).
+Proof.
+move=> Hrun Hstart idx hidx /= Am Hlin Hsym Hv HG jit evals evecs VtV Hdiag Hev.
+by have [] := diag_of_lanczos_any_form Hrun Hstart hidx Hlin Hsym Hv HG VtV Hdiag Hev.
+Qed.
 
 Theorem C09_diagonalization_jitter_refuted (F : rcfType) :
   exists (T : mat F) (jit : F),
@@ -248,6 +280,92 @@ Theorem C09_dense_closure_linear (F : rcfType) (n nvec : nat) (Ms : seq (mat F))
   size M = n -> (forall i, (i < n)%N -> size (nth [::] M i) = n) ->
   forall X, cv n (tensor_mm (ArR F) nvec Ms X) c = mx_of n n M *m cv n X c.
 Proof. exact: dense_mm_lin. Qed.
+
+(* 14. What survives a breakdown inside a batch (several columns share the loop; it only stops when ALL betas are
+       small).  For ANY prefix length w <= m of a column whose betas beta_0 .. beta_{w-2} are non-zero -- whatever
+       happens in that column afterwards and in the other columns --: the first w columns Q_w of Q are orthonormal,
+       the leading block T_w of T is Q_w^T A Q_w, all columns of A Q_w - Q_w T_w but the last vanish; and if
+       beta_{w-1} = 0 (the Krylov space of the column is exhausted at w) then A Q_w = Q_w T_w, i.e.
+       Q_w T_w Q_w^T equals A on the Krylov space.  (w = m gives theorems 4 and 5 again.) *)
+Theorem C09_breakdown_prefix (F : rcfType) (g : lz_args F) o nvec init :
+  lanczos_tridiag (ArR F) g = Ok o -> lz_start g = Ok (nvec, init) ->
+  forall idx, (idx < size (o_Q o))%N ->
+    let n := g_n g in let m := o_m o in
+    let c := col_of (prodn (g_batch g)) nvec idx in
+    let Q := nth [::] (o_Q o) idx in let T := nth [::] (o_T o) idx in
+    forall Am : 'M[F]_n,
+    (forall X, cv n (g_mm g X) c = Am *m cv n X c) -> Am^T = Am ->
+    cv n init c != 0 ->
+    forall w, (0 < w <= m)%N ->
+    (forall j, (j.+1 < w)%N -> mget (ArR F) T j j.+1 != 0) ->
+    let Qw := mx_of n w Q in let Tw := mx_of w w T in
+    [/\ Qw^T *m Qw = 1%:M, Qw^T *m Am *m Qw = Tw,
+        (forall j : 'I_w, (j.+1 < w)%N -> col j (Am *m Qw - Qw *m Tw) = 0) &
+        (w < m)%N -> mget (ArR F) T w.-1 w = 0 ->
+          Am *m Qw = Qw *m Tw /\ forall y : 'cV[F]_w, (Qw *m Tw *m Qw^T) *m (Qw *m y) = Am *m (Qw *m y)].
+Proof. exact: lanczos_breakdown_prefix_rcf. Qed.
+
+(* 15. The Lanczos relation in its classical form: A Q - Q T = beta q e_m^T with beta >= 0 the norm of the last column
+       of A Q - Q T and q that column normalised: q is orthogonal to every column of Q and a unit vector unless
+       beta = 0; the last column is (I - Q Q^T) A q_m, the part of A q_m outside span Q.  (At an early exit beta and q
+       are the beta_curr / r_vec that the last loop body computed and the trimming dropped; theorem 8 bounds beta.) *)
+Theorem C09_arnoldi_residual (F : rcfType) (g : lz_args F) o nvec init :
+  lanczos_tridiag (ArR F) g = Ok o -> lz_start g = Ok (nvec, init) ->
+  forall idx, (idx < size (o_Q o))%N ->
+    let n := g_n g in let m := o_m o in
+    let c := col_of (prodn (g_batch g)) nvec idx in
+    let Q := nth [::] (o_Q o) idx in let T := nth [::] (o_T o) idx in
+    forall Am : 'M[F]_n,
+    (forall X, cv n (g_mm g X) c = Am *m cv n X c) -> Am^T = Am ->
+    cv n init c != 0 ->
+    (forall j, (j.+1 < m)%N -> mget (ArR F) T j j.+1 != 0) ->
+    let Qm := mx_of n m Q in let Tm := mx_of m m T in
+    forall jl : 'I_m, jl.+1 = m ->
+    let r := col jl (Am *m Qm - Qm *m Tm) in
+    let beta := Num.sqrt (dotv r r) in
+    let qn := beta^-1 *: r in
+    [/\ Am *m Qm - Qm *m Tm = beta *: (qn *m delta_mx ord0 jl),
+        Qm^T *m qn = 0 /\ (beta != 0 -> dotv qn qn = 1),
+        0 <= beta &
+        r = (1%:M - Qm *m Qm^T) *m Am *m col jl Qm].
+Proof. exact: lanczos_arnoldi_residual_rcf. Qed.
+
+(* 16. _postprocess_lanczos_root_inv_decomp (lines 198-221 transcribed: solves R (R^T V), residual norms of
+       A solves - V per test vector, summed over batch members and test vectors, torch.min): the returned inverse root
+       is one of the probes', its summed residual is minimal, and if SOME probe solves every test system exactly
+       (e.g. its Krylov space is the whole space, theorem 11) then so does the returned one. *)
+Theorem C09_postprocess_best_probe (F : rcfType) (n k t : nat) (As Vs : seq (mat F)) (Rs : seq (seq (mat F))) :
+  Rs != [::] ->
+  let res := post_residuals (ArR F) n k t As Rs Vs in
+  let sel := postprocess (ArR F) n k t As Rs Vs in
+  [/\ (sel.1 < size Rs)%N, sel.2 = nth [::] Rs sel.1,
+      (forall p, (p < size Rs)%N -> nth 0 res sel.1 <= nth 0 res p) &
+      (forall p0, (p0 < size Rs)%N -> exact_on_tests n k t As Vs (nth [::] Rs p0) -> exact_on_tests n k t As Vs sel.2)].
+Proof. exact: postprocess_best. Qed.
+
+(* 17. Shapes handed back by the consumers (pure list reasoning: no arithmetic involved), for every number of probes,
+       batch shape, n > 1, m > 1: RootDecomposition.forward returns ( [nprobe,] *batch, n, m ), Diagonalization.forward
+       ( *batch, m ) and ( *batch, n, m ), _postprocess_lanczos_root_inv_decomp ( *batch, n, m ) -- EXCEPT that a
+       leading batch dimension of size 1 is squeezed away (root / diagonalization: single probe and >= 2 batch
+       dimensions; post-processing: any batch).  The exceptions are known finding C09-leading-singleton-batch. *)
+Theorem C09_consumer_shapes (nprobe : nat) (batch : seq nat) (n m : nat) :
+  (0 < nprobe)%N -> (1 < m)%N -> (1 < n)%N ->
+  [/\ (root_forward_shape (lanczos_lead nprobe batch) n m == lanczos_lead nprobe batch ++ [:: n; m])
+        = ~~ [&& nprobe == 1%N, (1 < size batch)%N & head 0%N batch == 1%N],
+      (diag_forward_shape batch n m == (batch ++ [:: m], batch ++ [:: n; m]))
+        = ~~ ((1 < size batch)%N && (head 0%N batch == 1%N)) &
+      (postprocess_shape batch n m == batch ++ [:: n; m]) = ~~ ((0 < size batch)%N && (head 0%N batch == 1%N))].
+Proof.
+move=> np0 m1 n1; split.
+- exact: root_forward_shape_spec.
+- exact: diag_forward_shape_spec.
+- exact: postprocess_shape_spec.
+Qed.
+
+Theorem C09_leading_singleton_batch_refuted :
+  root_forward_shape (lanczos_lead 1 [:: 1; 2]%N) 5 5 = [:: 2; 5; 5]%N
+  /\ (diag_forward_shape [:: 1; 2]%N 5 5).2 = [:: 2; 5; 5]%N /\ postprocess_shape [:: 1]%N 6 4 = [:: 6; 4]%N.
+Proof. by []. Qed.
 
 (* Non-vacuity: on A = [[1,1],[1,1]], start vector e_1, budget 2 (over any real closed field, any tol / threshold)
    the run succeeds and every hypothesis of theorems 4-7 and 11 holds, including m = n. *)
